@@ -185,6 +185,7 @@ func main() {
 		}
 	} else {
 		notes = append(notes, "runOSSpecific not found in cmd_os.go")
+		lines = append(lines, "-- waitReturnsExitCode not recognised", "def waitReturnsExitCode? : Option Bool := none")
 	}
 
 	var sb strings.Builder
@@ -207,5 +208,5 @@ func main() {
 		fmt.Fprintln(os.Stderr, err)
 		os.Exit(1)
 	}
-	fmt.Printf("wrote %s (%d facts, %d missing)\n", dst, len(lines)/2, len(notes))
+	fmt.Printf("wrote %s (%d missing facts)\n", dst, len(notes))
 }
